@@ -340,24 +340,42 @@ func c19R3(c *Ctx) {
 			c.Violation(FuncName(fn), p.Pos(fn.Pos()), "no-required-propagation", "required fields are never propagated")
 		}
 	}
-	// NewMessageDef: RequiredTags.Add under allowRequired ∧ field.Required(); allowRequired = component's Required() / true for direct fields
+	// NewMessageDef: a tag becomes required either (i) as a field listed directly in the message,
+	// under allowRequired ∧ field.Required() with allowRequired = true only for direct fields, or
+	// (ii) as a member of part.RequiredFields() of a part that is itself Required().
 	nm := p.Func(pk, "NewMessageDef")
+	nAdd := 0
 	for _, f := range WithClosures(nm) {
 		for _, cl := range Calls(f) {
-			if cal := cl.Common().StaticCallee(); cal != nil && cal.Name() == "Add" {
-				ro := p.Origin(cl.Common().Args[0])
-				if ro.Kind == "field" && ro.Field.Name() == "RequiredTags" {
-					d := p.ReachCond(cl.Block())
-					g1 := d.Implies(func(a *Atom) bool { return a.Rel == "" && a.Val && a.B.Kind == "param" })
-					g2 := d.Implies(func(a *Atom) bool {
-						return a.Rel == "" && a.Val && a.B.Kind == "call" && (a.B.Method != nil && a.B.Method.Name() == "Required" || a.B.Callee != nil && a.B.Callee.Name() == "Required")
-					})
-					c.Check(g1 && g2, FuncName(f), p.InstrPos(cl), "requiredtags-guard", "RequiredTags.Add only under allowRequired ∧ field.Required()", "a tag is marked required under "+d.String())
-				}
+			cal := cl.Common().StaticCallee()
+			if cal == nil || cal.Name() != "Add" {
+				continue
 			}
+			ro := p.Origin(cl.Common().Args[0])
+			if !(ro.Kind == "field" && ro.Field.Name() == "RequiredTags") {
+				continue
+			}
+			nAdd++
+			d := p.ReachCond(cl.Block())
+			tag := p.Origin(cl.Common().Args[1])
+			reqCall := func(a *Atom) bool {
+				return a.Rel == "" && a.Val && a.B.Kind == "call" && (a.B.Method != nil && a.B.Method.Name() == "Required" || a.B.Callee != nil && a.B.Callee.Name() == "Required")
+			}
+			fromRequiredFields := tag.Mentions(func(x *Org) bool {
+				return x.Kind == "call" && x.Method != nil && x.Method.Name() == "RequiredFields"
+			})
+			if fromRequiredFields {
+				c.Check(d.Implies(reqCall), FuncName(f), p.InstrPos(cl), "requiredtags-component", "component fields required via part.RequiredFields() only when the part is Required()", "required fields of a component are marked required in the message under "+d.String()+", not only when the component itself is required")
+				continue
+			}
+			g1 := d.Implies(func(a *Atom) bool { return a.Rel == "" && a.Val && a.B.Kind == "param" })
+			c.Check(g1 && d.Implies(reqCall), FuncName(f), p.InstrPos(cl), "requiredtags-guard", "RequiredTags.Add only under allowRequired ∧ field.Required()", "a tag is marked required under "+d.String())
 		}
 	}
-	// calls of the processField closure: (f, pType.Required()) for component fields, (pType, true) for direct fields
+	if nAdd == 0 {
+		c.Violation(FuncName(nm), p.Pos(nm.Pos()), "no-requiredtags", "NewMessageDef never marks a tag required")
+	}
+	// calls of the per-field closure: allowRequired is the constant true only for a directly listed field
 	for _, cl := range Calls(nm) {
 		cc := cl.Common()
 		if cc.StaticCallee() == nil || cc.StaticCallee().Parent() != nm || len(cc.Args) < 2 {
@@ -365,11 +383,14 @@ func c19R3(c *Ctx) {
 		}
 		a1 := p.Origin(cc.Args[len(cc.Args)-1])
 		a0 := p.Origin(cc.Args[len(cc.Args)-2])
-		if b, ok := a1.ConstBoolVal(); ok {
-			c.Check(b && a0.Kind == "typeassert", FuncName(nm), p.InstrPos(cl), "direct-field-required", "a field listed directly in the message may be required", "direct message field processed with allowRequired="+a1.String())
-		} else {
-			ok := a1.Kind == "call" && a1.Method != nil && a1.Method.Name() == "Required"
-			c.Check(ok, FuncName(nm), p.InstrPos(cl), "component-field-required", "a component's field is required in the message only if the component is", "fields of a component are processed with allowRequired = "+a1.String()+" instead of the component's Required()")
+		b, isC := a1.ConstBoolVal()
+		switch {
+		case isC && b:
+			c.Check(a0.Kind == "typeassert", FuncName(nm), p.InstrPos(cl), "direct-field-required", "a field listed directly in the message may be required", "a flattened component field is processed with allowRequired = true")
+		case isC && !b:
+			c.OK(FuncName(nm), p.InstrPos(cl), "flattened component fields do not decide requiredness themselves")
+		default:
+			c.Violation(FuncName(nm), p.InstrPos(cl), "component-field-required", "each flattened field of a component is marked required when the field itself is required and "+a1.String()+": a required field of an OPTIONAL sub-component of a required component becomes required in the message")
 		}
 	}
 }
